@@ -57,7 +57,7 @@ def exempted (cfg : Cfg) (r : Req) : Bool :=
     if Gen.ReqBody.exemptTest = "eq_or_slash_prefix" then r.path == p || (p ++ ['/']).isPrefixOf r.path
     else p.isPrefixOf r.path)
 
-/-- `_MaxRequestBytesMiddleware.process_request`: `.error status` = refused; `.ok capped` = `req.context.capped_request_body` -/
+/-- `_MaxRequestBytesMiddleware.process_request`: `.error status` = refused (raised, or `_reject_too_large` + `return`); `.ok capped` = `req.context.capped_request_body` -/
 def wireCap (cfg : Cfg) (r : Req) : Except Nat (Option Bytes) :=
   match cfg.cap with
   | none => .ok none                                            -- middleware not installed
@@ -100,16 +100,22 @@ def decodeStage (L : Libs) (cfg : Cfg) (r : Req) (capped : Option Bytes) : Decod
           | _ => .error Gen.ReqBody.undecodableStatus,
          run.peak, run.reads⟩
 
-/-- the whole path: wire cap, decode, `_get_request_stream` -/
+/-- the whole path: wire cap, decode, `_get_request_stream`.
+A refusal ends the request when it is raised, or when `_reject_request` marks the response complete (Falcon then skips the
+remaining hooks and the responder); `Gen.ReqBody.refusalEndsRequest` says the code does one of the two.  If it did neither,
+the later stages would still run — modelled below, and excluded by the theorems. -/
 def process (L : Libs) (cfg : Cfg) (r : Req) : Result :=
-  match wireCap cfg r with
-  | .error st => ⟨.status st, 0, []⟩
-  | .ok capped =>
+  let stage2 (capped : Option Bytes) : Result :=
     let d := decodeStage L cfg r capped
     ⟨match d.res with
-      | .error st => .status st
+      | .error st =>
+        if Gen.ReqBody.refusalEndsRequest then .status st
+        else .toRpc (match capped with | some b => b | none => bounded r)
       | .ok (some b) => .toRpc b                                                  -- `decompressed_stream`
       | .ok none => .toRpc (match capped with | some b => b | none => bounded r), -- capped body, else `bounded_stream.read()`
      d.peak, d.reads⟩
+  match wireCap cfg r with
+  | .error st => if Gen.ReqBody.refusalEndsRequest then ⟨.status st, 0, []⟩ else stage2 none
+  | .ok capped => stage2 capped
 
 end VgiVerif.C17
